@@ -774,7 +774,9 @@ class Data(object):
         elif axis in [verif.axis.No(), verif.axis.Threshold(), verif.axis.Obs(), verif.axis.Fcst()]:
             output = array.flatten()
         elif axis == verif.axis.All() or axis is None:
-            output = array
+            # Return a copy: get_scores masks the result in place, which must not
+            # alter the cached array that later requests are served from
+            output = array.copy()
         else:
             verif.util.error("data.py: unrecognized axis: " + axis.name())
 
